@@ -71,103 +71,7 @@ rc::Gen<vh::Case> vh_gen(const vh::Opts&) {
 
 static std::string hex(const uint8_t* p, size_t n) { std::string s; char b[4]; for (size_t i = 0; i < n; i++) { snprintf(b, sizeof b, "%02x", p[i]); s += b; } return s; }
 
-// ---- decoder-text normalisation --------------------------------------------------------------------------------------
-// Decoders print the same instruction differently depending on the encoding chosen (imm8 sign-extended vs imm16, prefix
-// order, operand order of symmetric instructions). Normalise: numbers are reduced modulo the operand size (outside
-// brackets) / address size (inside brackets), leading prefix words are sorted, xchg/test operands are sorted.
-static bool is_prefix_word(const std::string& w) {
-  static const char* k[] = {"lock", "rep", "repe", "repz", "repne", "repnz", "xacquire", "xrelease", "data16", "data32", "addr16", "addr32", "es", "cs", "ss",
-                            "ds", "fs", "gs", "wait", "fwait", "notrack", "bnd", ";"};
-  for (const char* x : k) if (w == x) return true;
-  return w.rfind("rex", 0) == 0;
-}
-
-static std::string norm_text(const std::string& t, int opsize, int addrbits) {
-  // 1. numbers
-  std::string o;
-  int depth = 0;
-  size_t i = 0, n = t.size();
-  auto mask = [](uint64_t v, int bits) { return bits >= 64 || bits <= 0 ? v : (v & ((uint64_t(1) << bits) - 1)); };
-  while (i < n) {
-    char ch = t[i];
-    if (ch == '[') depth++;
-    if (ch == ']') depth--;
-    bool numstart = isdigit((unsigned char)ch) && (i == 0 || !(isalnum((unsigned char)t[i - 1]) || t[i - 1] == '_' || t[i - 1] == '.'));
-    if (numstart) {
-      size_t j = i;
-      uint64_t v = 0;
-      if (t.compare(i, 2, "0x") == 0) { j = i + 2; while (j < n && isxdigit((unsigned char)t[j])) { v = v * 16 + uint64_t(isdigit((unsigned char)t[j]) ? t[j] - '0' : (tolower(t[j]) - 'a' + 10)); j++; } }
-      else { while (j < n && isdigit((unsigned char)t[j])) { v = v * 10 + uint64_t(t[j] - '0'); j++; } if (j < n && t[j] == 'h') j++; }
-      // scale factor like "4*rcx" or "rcx*4": keep literally
-      bool is_scale = (j < n && t[j] == '*') || (i > 0 && t[i - 1] == '*');
-      if (is_scale) { o.append(t, i, j - i); i = j; continue; }
-      // sign: "-0x2" attached, or "- 0x2" / "+ 0x2" inside brackets
-      bool neg = false;
-      size_t k = o.size();
-      while (k > 0 && o[k - 1] == ' ') k--;
-      if (k > 0 && (o[k - 1] == '-' || o[k - 1] == '+')) { neg = o[k - 1] == '-'; o.resize(k - 1); while (!o.empty() && o.back() == ' ') o.pop_back(); o += depth > 0 ? "+" : " "; }
-      if (neg) v = uint64_t(0) - v;
-      v = mask(v, depth > 0 ? addrbits : opsize);
-      char b[32]; snprintf(b, sizeof b, "0x%llx", (unsigned long long)v);
-      o += b;
-      i = j;
-      continue;
-    }
-    o += ch;
-    i++;
-  }
-  // 2. split words, sort leading prefixes
-  std::vector<std::string> words; std::string w;
-  for (char ch : o) { if (ch == ' ') { if (!w.empty()) words.push_back(w); w.clear(); } else w += ch; }
-  if (!w.empty()) words.push_back(w);
-  std::vector<std::string> pre, rest;
-  size_t wi = 0;
-  for (; wi < words.size() && is_prefix_word(words[wi]); wi++) if (words[wi] != ";") pre.push_back(words[wi]);
-  for (; wi < words.size(); wi++) rest.push_back(words[wi]);
-  std::sort(pre.begin(), pre.end());
-  std::string r;
-  for (auto& x : pre) { r += x; r += ' '; }
-  std::string body;
-  for (auto& x : rest) { body += x; body += ' '; }
-  // 3. symmetric instructions
-  if (!rest.empty() && (rest[0] == "xchg" || rest[0] == "test")) {
-    size_t sp = body.find(' ');
-    std::string ops = body.substr(sp + 1);
-    size_t comma = std::string::npos; int d = 0;
-    for (size_t q = 0; q < ops.size(); q++) { if (ops[q] == '[') d++; if (ops[q] == ']') d--; if (ops[q] == ',' && d == 0) { comma = q; break; } }
-    if (comma != std::string::npos) {
-      std::string a = ops.substr(0, comma), b = ops.substr(comma + 1);
-      auto trim = [](std::string& z) { while (!z.empty() && z.back() == ' ') z.pop_back(); while (!z.empty() && z[0] == ' ') z.erase(0, 1); };
-      trim(a); trim(b);
-      if (b < a) std::swap(a, b);
-      body = rest[0] + " " + a + "," + b + " ";
-    }
-  }
-  return r + body;
-}
-
-struct SeqText { size_t consumed = 0; std::string text; int count = 0; };
-
-static SeqText llvm_seq(oracle::LlvmMc& mc, const uint8_t* p, size_t n) {
-  SeqText s;
-  while (s.consumed < n && s.count < 6) {
-    oracle::Decoded d = mc.decode(p + s.consumed, n - s.consumed, s.consumed);
-    if (!d.length) break;
-    if (s.count) s.text += " ; ";
-    s.text += d.text; s.consumed += d.length; s.count++;
-  }
-  return s;
-}
-static SeqText opc_seq(int mode, const uint8_t* p, size_t n) {
-  SeqText s;
-  while (s.consumed < n && s.count < 6) {
-    oracle::OpcDecoded d = oracle::opc_decode(mode, p + s.consumed, n - s.consumed, s.consumed);
-    if (!d.length) break;
-    if (s.count) s.text += " ; ";
-    s.text += d.text; s.consumed += d.length; s.count++;
-  }
-  return s;
-}
+#include "oracle/textnorm.h"
 
 static std::string reason_code(const std::string& m) {
   struct K { const char* kw; const char* code; };
